@@ -240,7 +240,7 @@ def operand(s, symaddr):
 
 # --------------------------------------------------- X86 interpreter program
 X86_ALU = {"add", "sub", "and", "or", "xor", "imul", "shl", "sal", "shr", "sar", "cmp", "test", "mov", "lea",
-           "neg", "not", "inc", "dec", "xchg", "cmpxchg", "push", "pop"}
+           "neg", "not", "inc", "dec", "xchg", "cmpxchg", "push", "pop", "idiv", "div"}
 X86_SET = {"sete", "setne", "setl", "setle", "setg", "setge", "setb", "setbe", "seta", "setae", "sets", "setns", "setz", "setnz"}
 X86_MOVX = {"movsbl": (1, 4, 1), "movsbw": (1, 2, 1), "movsbq": (1, 8, 1), "movswl": (2, 4, 1), "movswq": (2, 8, 1),
             "movslq": (4, 8, 1), "movsxd": (4, 8, 1), "movzbl": (1, 4, 0), "movzbw": (1, 2, 0), "movzbq": (1, 8, 0),
@@ -257,14 +257,17 @@ def x86_function(fn, symaddr):
         if op in ("label", "V"):
             out.append(rec); continue
         if x.rep:
+            if op in ("stosb", "movsb") and not x.args:
+                rec["op"] = "rep" + op               # modelled on private memory only (X86.tla)
+                out.append(rec); continue
             raise Unknown("%s: rep prefix not modelled: %s" % (fn.name, x.raw))
         if op == "jmp" or op in JCC:
             if x.target is None:
                 raise Unknown("%s: indirect jump not modelled: %s" % (fn.name, x.raw))
             rec.update(op={"jz": "je", "jnz": "jne"}.get(op, op), t=x.target + 1)
             out.append(rec); continue
-        if op in ("ret", "nop", "mfence", "pause"):
-            rec["op"] = op
+        if op in ("ret", "nop", "mfence", "pause", "cqo", "cqto", "cdq", "cltd"):
+            rec["op"] = {"cqto": "cqo", "cltd": "cdq"}.get(op, op)
             out.append(rec); continue
         ops = [operand(a, symaddr) for a in x.args]
         if op in X86_MOVX:
@@ -309,7 +312,7 @@ def x86_function(fn, symaddr):
         if base == "imul" and len(ops) == 3:
             raise Unknown("%s: three-operand imul not modelled: %s" % (fn.name, x.raw))
         rec.update(op=base, w=w, a=ops[0] if ops else NONE, b=ops[1] if len(ops) > 1 else NONE)
-        if base in ("neg", "not", "inc", "dec", "pop", "push"):
+        if base in ("neg", "not", "inc", "dec", "pop", "push", "idiv", "div"):
             rec.update(a=ops[0], b=ops[0])
         out.append(rec)
     return out
